@@ -1,6 +1,6 @@
 //! Property -> engine stages / budgets.
 
-use crate::runner::Engine;
+use bsv_core::runner::Engine;
 
 pub struct Stage {
     pub engine: fn() -> Box<dyn Engine>,
@@ -20,13 +20,13 @@ pub fn specs() -> Vec<PropSpec> {
     let mut v = vec![
         PropSpec {
             id: "C11",
-            stages: vec![Stage { engine: || Box::new(crate::pure::PureBump), quick_cases: 16_000_000, thorough_cases: 1_600_000_000 }],
+            stages: vec![Stage { engine: || Box::new(bsv_core::pure::PureBump), quick_cases: 16_000_000, thorough_cases: 1_600_000_000 }],
             quick_budget_s: 600,
             thorough_budget_s: 7200,
         },
         PropSpec {
             id: "C12",
-            stages: vec![Stage { engine: || Box::new(crate::pure::PureSize), quick_cases: 16_000_000, thorough_cases: 1_600_000_000 }],
+            stages: vec![Stage { engine: || Box::new(bsv_core::pure::PureSize), quick_cases: 16_000_000, thorough_cases: 1_600_000_000 }],
             quick_budget_s: 600,
             thorough_budget_s: 7200,
         },
@@ -35,7 +35,7 @@ pub fn specs() -> Vec<PropSpec> {
     {
         macro_rules! arena {
             ($id:literal, $q:expr, $t:expr) => {
-                Stage { engine: || Box::new(crate::arena_cells::ArenaEngine::new($id)), quick_cases: $q, thorough_cases: $t }
+                Stage { engine: || Box::new(bsv_arena::arena_cells::ArenaEngine::new($id)), quick_cases: $q, thorough_cases: $t }
             };
         }
         macro_rules! prop {
@@ -54,7 +54,7 @@ pub fn specs() -> Vec<PropSpec> {
         prop!("C18", arena!("C18", 160_000, 4_000_000));
         macro_rules! coll {
             ($id:literal, $q:expr, $t:expr) => {
-                Stage { engine: || Box::new(crate::coll::CollEngine::new($id)), quick_cases: $q, thorough_cases: $t }
+                Stage { engine: || Box::new(bsv_coll::coll::CollEngine::new($id)), quick_cases: $q, thorough_cases: $t }
             };
         }
         prop!("C06", coll!("C06", 200_000, 5_000_000));
@@ -64,12 +64,12 @@ pub fn specs() -> Vec<PropSpec> {
         if let Some(p) = v.iter_mut().find(|p| p.id == "C07") {
             p.stages.push(coll!("C07", 100_000, 2_000_000));
         }
-        prop!("C09", Stage { engine: || Box::new(crate::strings::StrEngine { split_mix: false }), quick_cases: 400_000, thorough_cases: 10_000_000 });
+        prop!("C09", Stage { engine: || Box::new(bsv_coll::strings::StrEngine { split_mix: false }), quick_cases: 400_000, thorough_cases: 10_000_000 });
         if let Some(p) = v.iter_mut().find(|p| p.id == "C16") {
-            p.stages.push(Stage { engine: || Box::new(crate::strings::StrEngine { split_mix: true }), quick_cases: 100_000, thorough_cases: 2_000_000 });
+            p.stages.push(Stage { engine: || Box::new(bsv_coll::strings::StrEngine { split_mix: true }), quick_cases: 100_000, thorough_cases: 2_000_000 });
         }
-        prop!("C17", Stage { engine: || Box::new(crate::lockstep::LockEngine), quick_cases: 200_000, thorough_cases: 5_000_000 });
-        prop!("C19", Stage { engine: || Box::new(crate::pool::PoolEngine), quick_cases: 6_000, thorough_cases: 100_000 });
+        prop!("C17", Stage { engine: || Box::new(bsv_lock::LockEngine), quick_cases: 200_000, thorough_cases: 5_000_000 });
+        prop!("C19", Stage { engine: || Box::new(bsv_pool::PoolEngine), quick_cases: 6_000, thorough_cases: 100_000 });
         // C12: the real-arena half rides on engine A
         if let Some(p) = v.iter_mut().find(|p| p.id == "C12") {
             p.stages.push(arena!("C12", 120_000, 3_000_000));
